@@ -8,13 +8,18 @@ RULE = ('seeded random class DAGs of 1-8 component classes and 0-5 processor cla
         'assignments of types to entities and all query types: get, get_component, has_component, '
         'remove_component, get_processor, remove_processor observed for every type of the hierarchy after '
         'every operation.  Non-trivial as for C01.')
-TAGS = ('get', 'has', 'gp', 'ret', 'res', 'procs')
+TAGS = ('get', 'getall', 'has', 'gp', 'ret', 'res', 'procs')
 CLAUSES = {'get', 'get-lists-pair-twice', 'has_component', 'get_component', 'get_processor', 'remove-result',
            'remove-matches-subtype', 'processors-order', 'outcome', 'shape', 'truncated', 'hang'}
 generate, project, oracle, nontrivial, stats = _world.make(
     'C06', TAGS, CLAUSES, [
         dict(n_comp=(2, 8), n_proc=(0, 5), handlers=0.15,
              w=dict(remove=6, rmproc=3, addproc=4, delete=1, process=0.5, clear=0.2, enable=0.2, dispatch=0)),
+        # value-object components / processors (equal, unhashable, falsy instances) and a second world of
+        # the same classes doing other things in the same process
+        dict(n_comp=(2, 7), n_proc=(0, 4), handlers=0.1, traits=0.8, decoy=0.6,
+             w=dict(create=6, add=6, remove=5, rmproc=2, addproc=3, delete=1, process=0.5, clear=0.2, enable=0.2,
+                    dispatch=0)),
         # create_entity given two components of one type (the later one wins)
         dict(n_comp=(2, 6), n_proc=(0, 2), handlers=0.15, dup_in_create=0.6,
              w=dict(create=8, remove=6, rmproc=1, addproc=1, delete=1, process=0.5, clear=0.2, enable=0.2,
